@@ -127,6 +127,8 @@ impl Check for C15 {
         let dir = ctx.scratch.join(format!("c15-{}", idx));
         let importer;
         let (cfg, src, config_yaml, content, precisions): (_, _, String, String, Vec<(String, u32)>);
+        // CSV: (account, the movement each record states for it), oldest first
+        let mut stated: Option<(String, Vec<Q>)> = None;
         match rng.below(10) {
             0..=5 => {
                 importer = "csv";
@@ -168,6 +170,7 @@ impl Check for C15 {
                 config_yaml = case.config_yaml.clone();
                 content = case.csv_text.clone();
                 precisions = prec;
+                stated = Some((case.account.clone(), case.rows.iter().map(|r| r.amount).collect()));
             }
             6 => {
                 importer = "viseca";
@@ -271,6 +274,25 @@ impl Check for C15 {
                 wit(json!({"built": imp.tree_dumps.len(), "read_back": dumps.len()})),
             );
             return;
+        }
+        // "printed without change of value": what the statement says is what is printed (benign text
+        // only: hostile text may legitimately change the number of records)
+        if let (Some((account, amounts)), false) = (&stated, hostile) {
+            if amounts.len() == imp.txns.len() {
+                for (k, (want, t)) in amounts.iter().zip(imp.txns.iter()).enumerate() {
+                    let got = t.posts.iter().find(|p| &p.account == account).and_then(|p| p.amount.as_ref()).map(|(v, _)| *v);
+                    if got != Some(*want) {
+                        rec.violation(
+                            "statement-value-changed",
+                            &class,
+                            &format!("record {}: the statement moves the account by {}, the imported transaction by {:?}", k + 1, want.to_string_exact(), got.map(|v| v.to_string_exact())),
+                            wit(json!({"record": k + 1})),
+                        );
+                        return;
+                    }
+                }
+                rec.count("statement-values-kept");
+            }
         }
         for (k, (built, read)) in imp.tree_dumps.iter().zip(dumps.iter()).enumerate() {
             let (nb, numb) = normalise(built);
